@@ -349,3 +349,103 @@ Print Assumptions C20_generated_to_forecasting.
 Print Assumptions C20_generated_to_forecasting_axis0.
 Print Assumptions C20_generated_to_forecasting_2d.
 Print Assumptions C20_generated_one_hot.
+
+(* ================================================================================================================
+   The R-vs-Q instance gap, closed by proof (base/NumHom.v, proofs/QR_bridge_C20.v).
+   The map-generator theorems above are about model/Datasets.v at F := R (or any F); the correspondence run (run/RunC20.v)
+   evaluates the SAME terms at F := Q.  [Q2R] is a homomorphism of the [Num] class, strict comparison included (the guards of
+   logistic_map), so running at Q and embedding entry-wise ([qv2r], [qm2r], [qt2r] for 1/2/3 levels of lists) = running at R
+   on the embedded parameters.  The helpers are STRUCTURAL and this is stated as such: to_forecasting commutes with [map f]
+   for ANY function f on the rows (no algebra), one_hot computes on the labels and only selects rows of the identity, so its
+   output at R is the entry-wise image of its output at Q with the same classes.  test_len_of / round_half_even are
+   rational-only functions: no instance gap exists for them.  No shape hypothesis and no side condition. *)
+From RV Require Import base.NumHom proofs.QR_bridge_C20.
+
+(* logistic_map (None = rejected parameters or n = 0, on both sides), henon_map, narma of any order / length / start values,
+   and the pre-fix narma array of C20_narma_prefix_refuted *)
+Theorem C20_Qmaps_embed :
+  (forall (n : nat) (r x0 : Q), logistic_map n (Q2R r) (Q2R x0) = option_map qm2r (logistic_map n r x0)) /\
+  (forall (n : nat) (a b x0 y0 : Q), henon_map n (Q2R a) (Q2R b) (Q2R x0) (Q2R y0) = option_map qm2r (henon_map n a b x0 y0)) /\
+  (forall (n order : nat) (a1 a2 b c : Q) (x0 u : list Q),
+     narma n order (Q2R a1) (Q2R a2) (Q2R b) (Q2R c) (qv2r x0) (qv2r u) = qm2r (narma n order a1 a2 b c x0 u)) /\
+  (forall (n order : nat) (a1 a2 b c : Q) (x0 u : list Q),
+     narma_array_old n order (Q2R a1) (Q2R a2) (Q2R b) (Q2R c) (qv2r x0) (qv2r u) = qv2r (narma_array_old n order a1 a2 b c x0 u)).
+Proof. exact Qmaps_embed. Qed.
+
+(* the helpers are structural *)
+Theorem C20_Qhelpers_structural :
+  (forall (A B : Type) (f : A -> B) (fc : nat) (ts : test_size) (s : list A),
+     to_forecasting_rows fc ts (map f s) = option_map (map (map f)) (to_forecasting_rows fc ts s)) /\
+  (forall (axis fc : nat) (ts : test_size) (series : list (list Q)),
+     to_forecasting_2d axis fc ts (qm2r series) = option_map qt2r (to_forecasting_2d axis fc ts series)) /\
+  (forall (A : Type) (leb : A -> A -> bool) (labels : list A),
+     one_hot leb (F:=R) labels = (qm2r (fst (one_hot leb (F:=Q) labels)), snd (one_hot leb (F:=Q) labels))) /\
+  (forall (A : Type) (leb : A -> A -> bool) (rows : list (list A)),
+     one_hot_2d leb (F:=R) rows = e2d Q2R (one_hot_2d leb (F:=Q) rows)) /\
+  (forall (A : Type) (leb : A -> A -> bool) (seqs : list (list A)),
+     one_hot_multi leb (F:=R) seqs = (qt2r (fst (one_hot_multi leb (F:=Q) seqs)), snd (one_hot_multi leb (F:=Q) seqs))).
+Proof. exact Qhelpers_structural. Qed.
+
+(* non-vacuity: four steps of the Henon map with a = 7/5, b = 3/10 from (0,0), evaluated at R *)
+Example C20_Qmaps_henon_example :
+  henon_map 4 (Q2R (7#5)%Q) (Q2R (3#10)%Q) (Q2R 0%Q) (Q2R 0%Q)
+  = Some (qm2r [[0%Q; 0%Q]; [1%Q; 0%Q]; [(-2#5)%Q; (3#10)%Q]; [(269#250)%Q; (-3#25)%Q]]).
+Proof. exact Qmaps_henon_example. Qed.
+
+Print Assumptions C20_Qmaps_embed.
+Print Assumptions C20_Qhelpers_structural.
+
+(* ---- the verdict of the correspondence runner, read at R ----
+   [rclose m o] is |m - o| <= 1e-9 * max(1,|m|) on reals; [mrclose] / [trclose]: entry-wise on 2 / 3 levels, same shape.
+   A verdict [true] of the C20 runner IS a statement about the R-instance of model/Datasets.v on the embedded arguments. *)
+From RV Require Import run.RunC20.
+
+Theorem C20_chk_maps_are_about_R_model :
+  (forall n r x0 obs, chk_logistic n r x0 obs = true ->
+     exists v, logistic_map n (Q2R r) (Q2R x0) = Some v /\ mrclose v (qm2r obs)) /\
+  (forall n r x0, chk_logistic_rejects n r x0 = true -> logistic_map n (Q2R r) (Q2R x0) = None) /\
+  (forall n a b x0 y0 obs, chk_henon n a b x0 y0 obs = true ->
+     exists v, henon_map n (Q2R a) (Q2R b) (Q2R x0) (Q2R y0) = Some v /\ mrclose v (qm2r obs)) /\
+  (forall n order a1 a2 b c x0 u obs, chk_narma n order a1 a2 b c x0 u obs = true ->
+     mrclose (narma n order (Q2R a1) (Q2R a2) (Q2R b) (Q2R c) (qv2r x0) (qv2r u)) (qm2r obs)).
+Proof. exact chk_maps_are_about_R_model. Qed.
+
+Theorem C20_chk_helpers_are_about_R_model :
+  (forall fc ts series obs, chk_fc1 fc ts series obs = true ->
+     exists v, to_forecasting_rows fc ts (qv2r series) = Some v /\ mrclose v (qm2r obs)) /\
+  (forall axis fc ts series obs, chk_fc2 axis fc ts series obs = true ->
+     exists v, to_forecasting_2d axis fc ts (qm2r series) = Some v /\ trclose v (qt2r obs)) /\
+  (forall labels enc cls, chk_onehot_z labels enc cls = true ->
+     mrclose (fst (one_hot (F:=R) Z.leb labels)) (qm2r enc) /\ list_eqb Z.eqb (snd (one_hot (F:=R) Z.leb labels)) cls = true) /\
+  (forall labels enc cls, chk_onehot_s labels enc cls = true ->
+     mrclose (fst (one_hot (F:=R) String.leb labels)) (qm2r enc) /\ list_eqb String.eqb (snd (one_hot (F:=R) String.leb labels)) cls = true) /\
+  (forall seqs enc cls, chk_onehot_multi_z seqs enc cls = true ->
+     trclose (fst (one_hot_multi (F:=R) Z.leb seqs)) (qt2r enc) /\ list_eqb Z.eqb (snd (one_hot_multi (F:=R) Z.leb seqs)) cls = true) /\
+  (forall seqs enc cls, chk_onehot_multi_s seqs enc cls = true ->
+     trclose (fst (one_hot_multi (F:=R) String.leb seqs)) (qt2r enc) /\ list_eqb String.eqb (snd (one_hot_multi (F:=R) String.leb seqs)) cls = true) /\
+  (forall rows enc cls, chk_onehot_col_z rows enc cls = true ->
+     exists e, one_hot_2d (F:=R) Z.leb rows = (inl e, snd (one_hot_2d (F:=R) Z.leb rows)) /\ mrclose e (qm2r enc)
+               /\ list_eqb Z.eqb (snd (one_hot_2d (F:=R) Z.leb rows)) cls = true) /\
+  (forall rows enc cls, chk_onehot_col_s rows enc cls = true ->
+     exists e, one_hot_2d (F:=R) String.leb rows = (inl e, snd (one_hot_2d (F:=R) String.leb rows)) /\ mrclose e (qm2r enc)
+               /\ list_eqb String.eqb (snd (one_hot_2d (F:=R) String.leb rows)) cls = true) /\
+  (forall rows enc cls, chk_onehot_grid_z rows enc cls = true ->
+     exists e, one_hot_2d (F:=R) Z.leb rows = (inr e, snd (one_hot_2d (F:=R) Z.leb rows)) /\ trclose e (qt2r enc)
+               /\ list_eqb Z.eqb (snd (one_hot_2d (F:=R) Z.leb rows)) cls = true) /\
+  (forall rows enc cls, chk_onehot_grid_s rows enc cls = true ->
+     exists e, one_hot_2d (F:=R) String.leb rows = (inr e, snd (one_hot_2d (F:=R) String.leb rows)) /\ trclose e (qt2r enc)
+               /\ list_eqb String.eqb (snd (one_hot_2d (F:=R) String.leb rows)) cls = true).
+Proof. exact chk_helpers_are_about_R_model. Qed.
+
+(* non-vacuity: scenarios on which the runner answers true (Henon, NARMA order 2, a rejected logistic call, one_hot) *)
+Example C20_chk_maps_example :
+  chk_henon 4 (7#5)%Q (3#10)%Q 0%Q 0%Q [[0%Q; 0%Q]; [1%Q; 0%Q]; [(-2#5)%Q; (3#10)%Q]; [(269#250)%Q; (-3#25)%Q]] = true /\
+  chk_narma 3 2 (3#10)%Q (1#20)%Q (3#2)%Q (1#10)%Q [(1#2)%Q; (1#4)%Q] [(1#2)%Q; (1#4)%Q; (1#2)%Q; (1#8)%Q; (1#4)%Q]
+            (narma 3 2 (3#10)%Q (1#20)%Q (3#2)%Q (1#10)%Q [(1#2)%Q; (1#4)%Q] [(1#2)%Q; (1#4)%Q; (1#2)%Q; (1#8)%Q; (1#4)%Q]) = true /\
+  length (narma 3 2 (3#10)%Q (1#20)%Q (3#2)%Q (1#10)%Q [(1#2)%Q; (1#4)%Q] [(1#2)%Q; (1#4)%Q; (1#2)%Q; (1#8)%Q; (1#4)%Q]) = 3 /\
+  chk_logistic_rejects 5 (-1#1)%Q (1#2)%Q = true /\
+  chk_onehot_z [3; 1; 3]%Z [[0%Q; 1%Q]; [1%Q; 0%Q]; [0%Q; 1%Q]] [1; 3]%Z = true.
+Proof. vm_compute. repeat split; reflexivity. Qed.
+
+Print Assumptions C20_chk_maps_are_about_R_model.
+Print Assumptions C20_chk_helpers_are_about_R_model.
